@@ -158,7 +158,30 @@ def check_iso(tz, dt):
 
 INVALID = ['2100-02-29', '1900-02-29', '2300-02-29T10:00:00Z', '2024-02-30', '2023-13-01T00:00:00Z', '2024-01-01T25:00:00Z', '2024/01/01', '2024-01-01T10:20', '2024-01-01T10:20:30', '2024-1-1', 'yesterday',
            '2024-01-01T10:20:30+0100', '2024-01-01 10:20:30Z', '2024-00-10', '2024-01-00', '0000-01-01', '2023-02-29T12:00:00+00:00', '2024-01-01T10:60:00Z',
-           '2024-01-01T10:20:61Z', '2024-01-01T10:20:30+25:00', '', ' 2024-01-01', '2024-01-01T10:20:30.1234567Z', '2024-04-31', '2021-02-29T00:00:00.000-05:00']
+           '2024-01-01T10:20:61Z', '2024-01-01T10:20:30+25:00', '', ' 2024-01-01', '2024-01-01T10:20:30.1234567Z', '2024-04-31', '2021-02-29T00:00:00.000-05:00',
+           '\uff12\uff10\uff12\uff12-\uff10\uff18-\uff12\uff19', '2022-08-29\n', '2022-08-2\uff19', '\u0662\u0660\u0662\u0662-\u0660\u0668-\u0662\u0669', '2022-08-29T15:08:00Z\n',
+           '2022-08-2\uff19T15:08:00-04:00', '2022-08-29T15:08:00+0\uff15:30', '2022-08-29\r', '2022-08-29\r\n', '2022-08-29\x00', '\n2022-08-29', '2022-08-29T15:08:00.\u0967\u0968\u0969+00:00']
+
+
+_DIGIT_LOOKALIKES = [0xFF10, 0x0660, 0x0966, 0x06F0, 0x09E6, 0x1D7CE]      # fullwidth, Arabic-Indic, Devanagari, Extended Arabic-Indic, Bengali, mathematical bold
+
+
+def gen_invalid_text(rnd):
+    """A valid ISO text made invalid by one edit that a lenient parser tends to forgive."""
+    text = gen_valid_text(rnd)[0]
+    k = rnd.random()
+    if k < 0.4:
+        pos = rnd.choice([i for i, c in enumerate(text) if c.isdigit()])
+        return text[:pos] + chr(rnd.choice(_DIGIT_LOOKALIKES) + int(text[pos])) + text[pos + 1:], 'non-ascii-digit'
+    if k < 0.65:
+        return text + rnd.choice(['\n', '\r', '\r\n', ' ', '\t', '\x00', '\n\n', '\x0b', '\u2028']), 'trailing-character'
+    if k < 0.75:
+        return rnd.choice(['\n', ' ', '\t', '\ufeff']) + text, 'leading-character'
+    if k < 0.9:
+        pos = rnd.choice([i for i, c in enumerate(text) if c in '-:+'])
+        return text[:pos] + {'-': '\u2013', ':': '\uff1a', '+': '\uff0b'}[text[pos]] + text[pos + 1:], 'non-ascii-punctuation'
+    pos = rnd.choice([i for i, c in enumerate(text) if c in '-:'])
+    return text[:pos] + text[pos] + text[pos:], 'doubled-separator'
 
 
 def gen_valid_text(rnd):
@@ -276,7 +299,7 @@ def run_shard(ctx, spec):
         tz = rnd.choice(ZONES)
         if spec.get('zone'):
             tz = spec['zone']
-        family = rnd.choice(['new', 'new', 'arith', 'iso', 'iso', 'parse'])
+        family = rnd.choice(['new', 'new', 'new', 'new', 'arith', 'arith', 'iso', 'iso', 'iso', 'iso', 'parse', 'parse', 'parse-invalid'])
         nonhour = tz in ('Asia/Kolkata', 'Asia/Kathmandu', 'Australia/Lord_Howe', 'Pacific/Chatham')
         if family == 'new':
             args = gen_new_args(rnd) if rnd.random() < 0.7 else gen_boundary_args(rnd)
@@ -300,6 +323,10 @@ def run_shard(ctx, spec):
                 ctx.discard('iso-' + res)
                 return
             ctx.case(digest([tz, dt.isoformat()]), near or nonhour, ['iso', 'near-transition' if near else 'ordinary', 'zone:' + tz], {'tz': tz, 'd': dt.isoformat()})
+        elif family == 'parse-invalid':
+            text, how = gen_invalid_text(rnd)
+            check_parse(tz, text, None, None)
+            ctx.case(digest([tz, text]), True, ['parse-invalid', 'invalid:' + how], {'tz': tz, 'text': text})
         else:
             text, naive, aware = gen_valid_text(rnd)
             check_parse(tz, text, naive, aware)
